@@ -88,8 +88,24 @@ fn main() {
             }
         }
         "ledger-run" => {
-            let cases = read_cases(&arg(&args, "--in").expect("--in"));
+            let mut cases = read_cases(&arg(&args, "--in").expect("--in"));
             let out = arg(&args, "--out").expect("--out");
+            // single-file cases are also offered cut into two files (the same concatenation, so the same
+            // read order): where possible between two rows settling on the same day
+            let mut cut_variants = Vec::new();
+            for (n, c) in cases.iter().enumerate() {
+                if c.files.len() == 1 && c.files[0].len() >= 2 && c.raw.is_empty() && n % 2 == 0 {
+                    let rows = &c.files[0];
+                    let same_day: Vec<usize> = (1..rows.len()).filter(|&k| rows[k].sd == rows[k - 1].sd).collect();
+                    let cut = if !same_day.is_empty() { same_day[n % same_day.len()] } else { 1 + n % (rows.len() - 1) };
+                    let mut v = c.clone();
+                    v.id = format!("{}~cut{}", c.id, cut);
+                    v.files = vec![rows[..cut].to_vec(), rows[cut..].to_vec()];
+                    v.hdr = Vec::new();
+                    cut_variants.push(v);
+                }
+            }
+            cases.extend(cut_variants);
             let segs = par_map(&cases, threads, |c| ledger::ledger_segments(c));
             let mut w = BufWriter::new(std::fs::File::create(out).unwrap());
             let mut n = 0usize;
